@@ -41,11 +41,15 @@ func vE2E[K z.Key](k1, k2 K) (s string) {
 			s = fmt.Sprintf("panic %v", r)
 		}
 	}()
-	c, err := NewCache(&Config[K, int]{NumCounters: 100, MaxCost: 1000, BufferItems: 64, IgnoreInternalCost: true})
+	cfg := &Config[K, int]{NumCounters: 100, MaxCost: 1000, BufferItems: 64, IgnoreInternalCost: true}
+	c, err := NewCache(cfg)
 	if err != nil {
 		return "error " + err.Error()
 	}
 	defer c.Close()
+	// the Config belongs to the caller, who may reuse it as a template: what it holds after NewCache has returned is
+	// none of the running cache's business
+	cfg.KeyToHash = func(K) (uint64, uint64) { return 1, 1 }
 	ok := c.Set(k1, 7, 1)
 	c.Wait()
 	v1, f1 := c.Get(k1)
